@@ -939,4 +939,182 @@ Proof.
     destruct (i <? b_size c (w x)); inversion H; subst; apply Hsame; reflexivity.
 Qed.
 
+
+(* ---- C05: the inline promise ------------------------------------------------------------------------------------- *)
+Lemma inline_capacity x : fl c = FSV -> BInv x -> b_store c x = SInl -> b_capacity c x = N /\ b_size c x <= N.
+Proof. intros E H Hs. pose proof Hc as [HM0 HN0]. rewrite E in HN0. unfold VecProofs.BInv, b_store, b_capacity, b_size in *. rewrite E in *.
+  destruct (isSmall x) eqn:Es; [|discriminate]. destruct (inline_view M N HN0 x H Es) as (A & B & C). split; [assumption|lia]. Qed.
+
+(* a SmallVector that is inline stays inline, keeps capacity N and makes no allocator request through any operation
+   whose resulting size is within N *)
+Theorem sv_inline_promise p o a p' r ev x x' : fl c = FSV -> PInv p -> step c p o = (p', r, ev) -> target o = Some a ->
+  (single_pass o = true -> forall e, r <> RThrew e) ->
+  get p a = Some x -> get p' a = Some x' -> b_store c (w x) = SInl -> len (els x') <= N ->
+  b_store c (w x') = SInl /\ b_capacity c (w x') = N /\ ev = [].
+Proof. intros E Hp H Ht Hnt Hx Hx' Hin Hlen. destruct (inline_capacity (w x) E (proj1 (Hp _ _ Hx)) Hin) as [Hcap _].
+  destruct (step_fits p o a p' r ev x x' Hp H Ht Hnt Hx Hx') as [_ F]. destruct (F ltac:(lia)) as (F1 & F2 & F3).
+  split; [congruence|split; [congruence|assumption]]. Qed.
+
+(* two inline SmallVectors: move construction / assignment, swap and swap2 keep both inline, without allocator request *)
+Lemma sv_move_assign_inline t o : fl c = FSV -> BInv t -> BInv o -> b_store c t = SInl -> b_store c o = SInl ->
+  let '(t', o', ev) := b_move_assign c t o in b_store c t' = SInl /\ b_store c o' = SInl /\ ev = [].
+Proof. intros E Ht Ho It Io. pose proof Hc as [HM0 HN0]. rewrite E in HN0. unfold b_move_assign, b_store in *. rewrite E in *.
+  destruct (isSmall t) eqn:Et; [|discriminate]. destruct (isSmall o) eqn:Eo; [|discriminate]. cbn [negb andb].
+  assert (Ht' : WInv M N t) by (unfold VecProofs.BInv in Ht; rewrite E in Ht; exact Ht).
+  assert (Ho' : WInv M N o) by (unfold VecProofs.BInv in Ho; rewrite E in Ho; exact Ho).
+  destruct (inline_view M N HN0 t Ht' Et) as (T1 & T2 & T3). destruct (inline_view M N HN0 o Ho' Eo) as (O1 & O2 & O3).
+  pose proof (size_le_capacity M N o Ho') as Hso. unfold Words.size in O1. rewrite Eo in O1.
+  destruct (setSize_ok M N HN0 t (capa_ o) Ht' ltac:(unfold Words.size in *; rewrite Eo in *; lia)) as (_ & _ & _ & D1).
+  destruct (setSize_ok M N HN0 o 0 Ho' ltac:(lia)) as (_ & _ & _ & D2).
+  rewrite D1, D2, Et, Eo. repeat split; reflexivity. Qed.
+Lemma sv_move_construct_inline o : fl c = FSV -> BInv o -> b_store c o = SInl ->
+  let '(t', o') := b_move_construct c o in b_store c t' = SInl /\ b_store c o' = SInl.
+Proof. intros E Ho Io. pose proof init_BInv as (_ & _ & I3). unfold b_move_construct. rewrite E. rewrite <- (sv_init_eq E).
+  split; [assumption|]. unfold b_store in *. rewrite E in *. destruct (isSmall (b_init c)); [reflexivity|congruence]. Qed.
+Lemma sv_swap_inline t o : fl c = FSV -> b_store c t = SInl -> b_store c o = SInl ->
+  let '(t', o') := b_swap c t o in b_store c t' = SInl /\ b_store c o' = SInl.
+Proof. intros E It Io. unfold b_swap. rewrite E. split; assumption. Qed.
+
+(* a FixedCapacityVector never talks to an allocator and its elements never leave the object *)
+Lemma fcv_base_no_events : fl c = FFCV ->
+  (forall x n, match adjust c x n with inl (_, ev) => ev = [] | inr _ => True end) /\
+  (forall x, match adjust_one c x with inl (_, ev) => ev = [] | inr _ => True end) /\
+  (forall x, b_free c x = []) /\ (forall x, snd (b_shrink c x) = []) /\ (forall t o, snd (b_move_assign c t o) = []) /\
+  (forall x, b_store c x = SInl).
+Proof. intros E. unfold adjust, adjust_one, b_free, b_heap, b_shrink, b_move_assign, b_store. rewrite E. repeat split; intros.
+  - destruct (exc_check n (b_capacity c x)); [reflexivity|exact I].
+  - destruct (exc_check (b_size c x + 1) (b_capacity c x)); [reflexivity|exact I]. Qed.
+
+(* ---- C07 -------------------------------------------------------------------------------------------------------------- *)
+Theorem reserve_post p a n p' ev x' : PInv p -> step c p (Reserve a n) = (p', ROk, ev) -> get p' a = Some x' ->
+  (0 <= n <= M -> n <= b_capacity c (w x')) /\ (forall x, get p a = Some x -> b_capacity c (w x) <= b_capacity c (w x') /\ els x' = els x).
+Proof. intros Hp H Hx'. unfold step, on in H. cbv zeta in H. destruct (get p a) as [x|] eqn:Hx; [|inversion H; subst; congruence].
+  pose proof (Hp _ _ Hx) as [HvB HvS]. pose proof (b_size_cap c Hc _ HvB).
+  destruct ((0 <=? n) && (n <=? M)) eqn:G; [|discriminate H].
+  assert (Hsame : p' = p -> (0 <= n <= M -> n <= b_capacity c (w x) -> n <= b_capacity c (w x')) /\
+             (forall x0, Some x = Some x0 -> b_capacity c (w x0) <= b_capacity c (w x') /\ els x' = els x0)).
+  { intros ->. rewrite Hx in Hx'. inversion Hx'; subst. split; [auto|]. intros x0 [= <-]. split; [lia|reflexivity]. }
+  destruct (fl c) eqn:E.
+  - destruct (Z.ltb_spec (b_capacity c (w x)) n) as [Hlt|Hge].
+    + pose proof (b_grow_ok c Hc (w x) n true HvB Hlt ltac:(intros; lia) ltac:(congruence)) as GR.
+      destruct (b_grow c (w x) n true) as [[w1 ev1]|]; [|discriminate H]. inversion H; subst. destruct GR as (A & B & C & _).
+      rewrite (get_set_eq p a _ x Hx) in Hx'. inversion Hx'; subst. cbn [w els]. split; [intros; assumption|]. intros x0 [= <-]. split; [lia|reflexivity].
+    + inversion H; subst. destruct (Hsame eq_refl) as [S1 S2]. split; [intros; apply S1; [assumption|lia]|assumption].
+  - destruct (Z.ltb_spec (b_capacity c (w x)) n) as [Hlt|Hge].
+    + pose proof (b_grow_ok c Hc (w x) n true HvB Hlt ltac:(intros; lia) ltac:(congruence)) as GR.
+      destruct (b_grow c (w x) n true) as [[w1 ev1]|]; [|discriminate H]. inversion H; subst. destruct GR as (A & B & C & _).
+      rewrite (get_set_eq p a _ x Hx) in Hx'. inversion Hx'; subst. cbn [w els]. split; [intros; assumption|]. intros x0 [= <-]. split; [lia|reflexivity].
+    + inversion H; subst. destruct (Hsame eq_refl) as [S1 S2]. split; [intros; apply S1; [assumption|lia]|assumption].
+  - unfold exc_check in H. destruct (Z.ltb_spec (b_capacity c (w x)) n) as [Hlt|Hge]; [discriminate H|]. inversion H; subst.
+    destruct (Hsame eq_refl) as [S1 S2]. split; [intros; apply S1; assumption|assumption].
+Qed.
+
+(* moving from a heap-backed vector hands the buffer over: the target takes the source's words (size, capacity word and,
+   with them, the block), nothing is allocated *)
+Definition no_alloc (ev : list aevent) : Prop := forall e, In e ev -> match e with EDealloc _ => True | _ => False end.
+Lemma steal_move_construct o : b_store c o = SHeap -> fst (b_move_construct c o) = o /\ b_store c (snd (b_move_construct c o)) <> SHeap.
+Proof. intros Ho. unfold b_move_construct, b_store in *. destruct (fl c) eqn:E; cbn [fst snd capa_ size_]; try discriminate.
+  - split; [reflexivity|discriminate].
+  - split; [reflexivity|]. pose proof Hc as [_ HN0]. rewrite E in HN0. unfold isSmall; cbn [capa_ size_]. assert (0 <? N = true) as -> by lia. discriminate. Qed.
+Lemma steal_move_assign t o : b_store c o = SHeap ->
+  let '(t', o', ev) := b_move_assign c t o in t' = o /\ b_store c o' <> SHeap /\ no_alloc ev.
+Proof. intros Ho. unfold b_move_assign, b_store, no_alloc in *. destruct (fl c) eqn:E; try discriminate.
+  - split; [reflexivity|]. cbn [capa_]. split; [discriminate|]. intros e He. destruct (capa_ t =? 0); [destruct He|destruct He as [<-|[]]; exact I].
+  - destruct (isSmall o) eqn:Eo; [discriminate|]. split; [reflexivity|]. pose proof Hc as [_ HN0]. rewrite E in HN0.
+    unfold isSmall at 1; cbn [capa_ size_]. assert (0 <? N = true) as -> by lia. split; [discriminate|].
+    intros e He. destruct (isSmall t); [destruct He|destruct He as [<-|[]]; exact I]. Qed.
+Lemma steal_swap t o : fl c <> FFCV -> b_swap c t o = (o, t).
+Proof. intros Hf. unfold b_swap. destruct (fl c); try reflexivity. congruence. Qed.
+
+(* ---- C06: the allocator protocol ------------------------------------------------------------------------------------ *)
+(* the blocks a container owns: one block of [capacity word] elements while begin() points to the heap *)
+Definition owned (x : words) : list Z := if b_heap c x then [capa_ x] else [].
+Fixpoint take_one (n : Z) (l : list Z) : option (list Z) :=
+  match l with [] => None | y :: t => if n =? y then Some t else option_map (cons y) (take_one n t) end.
+(* what an allocator event does to the multiset of outstanding blocks; None = protocol violation (a block returned that is
+   not outstanding with that size); deallocate(nullptr, 0) is the no-op the first growth of an empty amc::vector performs *)
+Definition apply_ev (l : list Z) (e : aevent) : option (list Z) :=
+  match e with
+  | EAlloc n => Some (n :: l)
+  | EDealloc n => if n =? 0 then Some l else take_one n l
+  | ERealloc old new live => if old =? 0 then Some (new :: l) else option_map (cons new) (take_one old l)
+  end.
+Fixpoint apply_evs (l : list Z) (evs : list aevent) : option (list Z) :=
+  match evs with [] => Some l | e :: t => match apply_ev l e with Some l' => apply_evs l' t | None => None end end.
+
+Lemma heap_capa_pos x : BInv x -> b_heap c x = true -> 0 < capa_ x \/ (fl c = FSV /\ 0 <= capa_ x).
+Proof. intros H Hh. unfold b_heap, b_store, VecProofs.BInv in *. destruct (fl c) eqn:E; try discriminate.
+  - destruct (Z.eqb_spec (capa_ x) 0); [discriminate|]. left. lia.
+  - right. split; [reflexivity|]. unfold WInv in H. lia. Qed.
+
+(* Reallocate: the allocator's reallocate is used only for trivially relocatable element types, with the true old
+   capacity and live count; otherwise allocate + relocate + deallocate(old capacity) *)
+Lemma realloc_dispatch old new live :
+  realloc_events c old new live = if is_tr c && has_realloc c then [ERealloc old new live] else [EAlloc new; EDealloc old].
+Proof. reflexivity. Qed.
+
+Lemma realloc_ledger old new live : 0 <= old -> old < new ->
+  apply_evs (if old =? 0 then [] else [old]) (realloc_events c old new live) = Some [new].
+Proof. intros H0 Hlt. unfold realloc_events. destruct (is_tr c && has_realloc c); cbn [apply_evs apply_ev].
+  - destruct (Z.eqb_spec old 0); [reflexivity|]. cbn [take_one]. rewrite Z.eqb_refl. reflexivity.
+  - destruct (Z.eqb_spec old 0); [reflexivity|]. cbn [take_one]. assert (old =? new = false) as -> by lia. rewrite Z.eqb_refl. reflexivity. Qed.
+
+(* growth: the blocks owned before, transformed by the events of grow, are the blocks owned after *)
+Lemma grow_ledger x need exact x' ev : BInv x -> b_capacity c x < need -> (exact = true -> need <= M) -> fl c <> FFCV ->
+  b_grow c x need exact = Some (x', ev) -> fl c <> FSV \/ b_heap c x = false \/ 0 < capa_ x ->
+  apply_evs (owned x) ev = Some (owned x').
+Proof. intros H Hn He Hf Hg Hpos. pose proof (b_grow_ok c Hc x need exact H Hn He Hf) as G. rewrite Hg in G. destruct G as (A & B & C & D & _).
+  pose proof (b_size_cap c Hc x H) as Hsc. pose proof (b_size_cap c Hc x' A) as Hsc'.
+  unfold b_grow in Hg. unfold owned, b_heap. rewrite D. unfold b_store, b_capacity, p_capacity, VecProofs.BInv in *.
+  destruct (fl c) eqn:E; try congruence.
+  - destruct (safe_next M (mk_wrap c) (capa_ x) need exact) as [nc|]; [|discriminate]. inversion Hg; subst. cbn [capa_].
+    cbn [capa_ size_] in *. destruct H as [H1 H2]. destruct (Z.eqb_spec (capa_ x) 0) as [E0|E0].
+    + rewrite E0. apply (realloc_ledger 0 nc (size_ x)); lia.
+    + pose proof (realloc_ledger (capa_ x) nc (size_ x) ltac:(lia) ltac:(lia)) as R. destruct (Z.eqb_spec (capa_ x) 0) in R; [lia|exact R].
+  - destruct (isSmall x) eqn:Es.
+    + destruct (safe_next M (mk_wrap c) (if size_ x =? M then capa_ x else size_ x) need exact) as [nc|]; [|discriminate]. inversion Hg; subst. reflexivity.
+    + destruct (safe_next M (mk_wrap c) (capa_ x) need exact) as [nc|]; [|discriminate]. inversion Hg; subst. cbn [capa_].
+      destruct (heap_view M N x H Es) as (V1 & V2 & V3). rewrite V2 in *.
+      assert (Hcx : 0 < capa_ x) by (destruct Hpos as [Hp|[Hp|Hp]]; [congruence| |assumption]; unfold b_heap, b_store in Hp; rewrite E, Es in Hp; discriminate).
+      unfold Words.capacity, isSmall in C; cbn [capa_ size_] in C.
+      assert (Hnc : capa_ x < nc). { destruct (nc <? size_ x) eqn:Q; cbn [andb] in C; [|lia]. destruct (negb (size_ x =? M)); lia. }
+      pose proof (realloc_ledger (capa_ x) nc (size_ x) ltac:(lia) Hnc) as R. destruct (Z.eqb_spec (capa_ x) 0) in R; [lia|exact R].
+Qed.
+
+(* destruction returns the block with the capacity it was obtained (or last reallocated) with *)
+Lemma free_ledger x : apply_evs (owned x) (b_free c x) = Some [] \/ (b_heap c x = true /\ capa_ x = 0).
+Proof. unfold owned, b_free. destruct (b_heap c x) eqn:Hh; [|left; reflexivity].
+  destruct (Z.eqb_spec (capa_ x) 0) as [E0|E0]; [right; split; [reflexivity|assumption]|left].
+  cbn [apply_evs apply_ev take_one]. destruct (Z.eqb_spec (capa_ x) 0); [lia|]. rewrite Z.eqb_refl. reflexivity. Qed.
+
+(* move assignment: the target's old block is returned (with its own capacity), the source's block changes owner together
+   with the capacity word; nothing is allocated *)
+Lemma move_assign_ledger t o : BInv t -> BInv o -> (b_heap c t = true -> 0 < capa_ t) -> b_store c o = SHeap ->
+  let '(t', o', ev) := b_move_assign c t o in
+  apply_evs (owned t ++ owned o) ev = Some (owned t' ++ owned o') /\ owned t' = owned o /\ owned o' = [].
+Proof. intros Ht Ho Hpos Hso. unfold b_move_assign. destruct (fl c) eqn:E.
+  - unfold owned, b_heap, b_store in *. rewrite E in *. cbn [capa_]. destruct (capa_ o =? 0) eqn:Eo; [discriminate|]. cbn [app].
+    destruct (Z.eqb_spec (capa_ t) 0) as [Et|Et]; cbn [app apply_evs apply_ev]; [split; [reflexivity|split; reflexivity]|].
+    destruct (Z.eqb_spec (capa_ t) 0); [lia|]. cbn [take_one]. rewrite Z.eqb_refl. split; [reflexivity|split; reflexivity].
+  - pose proof Hc as [_ HN0]. rewrite E in HN0. unfold owned, b_heap, b_store in *. rewrite E in *.
+    destruct (isSmall o) eqn:Eo; [discriminate|]. rewrite ?Eo.
+    assert (Hz : isSmall {| capa_ := 0; size_ := N |} = true) by (unfold isSmall; cbn [capa_ size_]; apply Z.ltb_lt; lia). rewrite Hz. cbn [app].
+    destruct (isSmall t) eqn:Et; cbn [app apply_evs apply_ev]; [split; [reflexivity|split; reflexivity]|].
+    specialize (Hpos eq_refl). destruct (Z.eqb_spec (capa_ t) 0); [lia|]. cbn [take_one]. rewrite Z.eqb_refl. split; [reflexivity|split; reflexivity].
+  - unfold b_store in Hso. rewrite E in Hso. discriminate.
+Qed.
 End Step.
+
+(* ---- C10 at the level of the operation model: an own-element argument is the value it designates ---------------- *)
+Lemma own_as_ext c p a v i : get p a = Some v -> (i < length (els v))%nat ->
+  step c p (PushBack a (AOwn i)) = step c p (PushBack a (AExt (nth i (els v) 0))) /\
+  (forall q, step c p (Insert a q (AOwn i)) = step c p (Insert a q (AExt (nth i (els v) 0)))) /\
+  (forall q n, step c p (InsertN a q n (AOwn i)) = step c p (InsertN a q n (AExt (nth i (els v) 0)))) /\
+  (forall q, step c p (Emplace a q (AOwn i)) = step c p (Emplace a q (AExt (nth i (els v) 0)))) /\
+  step c p (EmplaceBack a (AOwn i)) = step c p (EmplaceBack a (AExt (nth i (els v) 0))) /\
+  (forall n, step c p (ResizeV a n (AOwn i)) = step c p (ResizeV a n (AExt (nth i (els v) 0)))) /\
+  (forall n, step c p (AssignN a n (AOwn i)) = step c p (AssignN a n (AExt (nth i (els v) 0)))) /\
+  (forall n, step c p (AppendNV a n (AOwn i)) = step c p (AppendNV a n (AExt (nth i (els v) 0)))).
+Proof. intros Hg Hi. apply Nat.ltb_lt in Hi. unfold step, on. rewrite Hg. cbn [arg_ok argval]. rewrite Hi.
+  repeat split; intros; rewrite ?andb_true_r; reflexivity. Qed.
+
